@@ -55,6 +55,23 @@ def cmdStep (ws : List String) : String :=
     match maj.toNat?, min.toNat? with
     | some maj, some min => serviceIntField ⟨maj, min⟩
     | _, _ => "bad-op"
+  | "cmd.svc" :: maj :: min :: args =>
+    -- args: name:type:token, token "-" = no value supplied; types b i f s B I F S u
+    match maj.toNat?, min.toNat? with
+    | some maj, some min =>
+      let parsed := args.map (fun a => a.splitOn ":")
+      let ty (c : String) : ArgTy := match c with
+        | "b" => .bool | "i" => .int | "f" => .float | "s" => .string
+        | "B" => .boolArr | "I" => .intArr | "F" => .floatArr | "S" => .stringArr | _ => .other
+      let decl : List SvcArg := parsed.filterMap (fun p => match p with | [n, t, _] => some ⟨n, ty t⟩ | _ => none)
+      if decl.length ≠ parsed.length then "bad-op" else
+      let data (n : String) : Option String :=
+        (parsed.findSome? (fun p => match p with | [n', _, tok] => if n' = n then some tok else none | _ => none)).bind
+          (fun tok => if tok = "-" then none else some tok)
+      match executeService ⟨maj, min⟩ data decl with
+      | some out => "ok " ++ " ".intercalate (out.map (fun p => p.1 ++ "=" ++ p.2))
+      | none => "raises"
+    | _, _ => "bad-op"
   | _ => "bad-op"
 
 end DrvCmd
